@@ -64,6 +64,20 @@ func (l *Liar) FirstTold(h chainhash.Hash) (int64, bool) {
 	return s, ok
 }
 
+// EarliestTold returns the smallest event-log position at which this liar
+// sent any false value (ok=false: it never did).
+func (l *Liar) EarliestTold() (int64, bool) {
+	l.mu.Lock()
+	defer l.mu.Unlock()
+	best, ok := int64(0), false
+	for _, s := range l.ToldSeq {
+		if !ok || s < best {
+			best, ok = s, true
+		}
+	}
+	return best, ok
+}
+
 func (l *Liar) told(p *Peer, h chainhash.Hash, kind string) {
 	l.Told[h] = kind
 	if _, ok := l.ToldSeq[h]; !ok {
